@@ -277,7 +277,7 @@ func (propC03) Check(c *Case) (*Violation, *RunInfo) {
 	sim := c.Execs[0].sim()
 	hist := Exec(c.Recipe, newEnv(sim))
 	ri.Steps = sim.Steps
-	ri.Frozen = []ExecSpec{{Mode: "replay", Perms: sim.Log}}
+	ri.Frozen = []ExecSpec{frozenSpec(sim)}
 	var viol *Violation
 	reached := false
 	for i := range hist {
